@@ -176,7 +176,12 @@ def make_plan(i, master, tier):
         _place_slow(plan, fr)
     # which actor runs the action to check is no business of the settings: all three kinds of actor that start a
     # process must hand it the act set, the current directory and the timeout
-    actor = kernel.stream(seed, 'actor').choice([None, None, 'file', 'source'])
+    actor = kernel.stream(seed, 'actor').choice([None, None, 'file', 'source', 'transformed'])
+    if actor == 'transformed':
+        # the default actor, the program of [act] having an output transformation (another way of running it)
+        case['act'] = {'lines': ['% atc', '  -transformed-by char-case -to-upper']}
+        actor = None
+        plan['atc_with_transformation'] = True
     if actor == 'file':
         case['conf'].append({'k': 'real', 'text': 'actor = file % atc'})
         case['act'] = {'lines': ['src.py a1']}
